@@ -1,7 +1,9 @@
 """C10 - spilling data to disk is invisible and leaves no files behind."""
+import gc
 import os
 import shutil
 import tempfile
+import weakref
 from datetime import timedelta
 
 import numpy as np
@@ -47,16 +49,17 @@ LIMITS = ["0", "b-1", "b", "1.5b", "2b", "3b"]
 N = 6  # payload entries -> b = 48 bytes
 
 
-def _limit(name):
-    b = 8 * N
+def _limit(name, n=None):
+    b = 8 * (n or N)
     return {"0": 0, "b-1": b - 1, "b": b, "1.5b": b + b // 2, "2b": 2 * b, "3b": 3 * b}[name]
 
 
 def _flex_payload(base, k, pk):
     """time-varying mask; kind flexmask0 has an empty mask at every second publication"""
-    m = (np.arange(N) + k) % 4 == 0
+    n = len(base)
+    m = (np.arange(n) + k) % 4 == 0
     if pk == "flexmask0" and k % 2 == 0:
-        m = np.zeros(N, bool)
+        m = np.zeros(n, bool)
     return np.ma.array(base, mask=m)
 
 
@@ -66,16 +69,17 @@ def _run(case, limit, loc, ctx):
 
     chain = KINDS[case["kind"]]
     pk = case["payload"]
+    n = case.get("n", N)
     if pk == "plain" and case["kind"] != "stack":
         g = fm.NoGrid(1)
         pmask = fm.Mask.FLEX
     elif pk == "plain":
         # StackTime delivers several time entries, which finam supports for gridded data only
-        g = fm.UniformGrid((N + 1,))
+        g = fm.UniformGrid((n + 1,))
         pmask = fm.Mask.FLEX
     else:
-        g = fm.UniformGrid((N + 1,))
-        fixed = np.arange(N) % 3 == 1
+        g = fm.UniformGrid((n + 1,))
+        fixed = np.arange(n) % 3 == 1
         pmask = fixed if pk == "fixedmask" else fm.Mask.FLEX
     link = hs.Link(
         fm.Info(time=hs.T0, grid=g, units="mm/d", mask=pmask),
@@ -88,14 +92,15 @@ def _run(case, limit, loc, ctx):
     inp = link.inputs[0]
     slots = [link.out] + link.adapters
     series = []
-    stats = {"spilled": 0, "ram": 0, "stray": None, "leftover": None}
+    refs = []  # weak references to the arrays handed to the consumer (bounded memory: they must die with the history)
+    stats = {"spilled": 0, "ram": 0, "stray": None, "leftover": None, "alive": 0, "retained": 0, "pulls": 0}
     pubs = 0
     t_now = hs.T0
     last = None
     for op in case["ops"]:
         if op[0] == "push":
             t_now = t_now + timedelta(minutes=op[1]) if pubs else hs.T0
-            base = np.arange(N, dtype=float) * 0.25 + float(op[2]) + pubs
+            base = np.arange(n, dtype=float) * 0.25 + float(op[2]) + pubs
             if pk == "plain":
                 payload = base
             elif pk == "fixedmask":
@@ -116,6 +121,15 @@ def _run(case, limit, loc, ctx):
             r = inp.pull_data(t)
             m = r.magnitude
             series.append((hs.mins(t), np.ma.getdata(m).copy(), np.ma.getmaskarray(m).copy(), str(r.units), bool(np.ma.isMaskedArray(m))))
+            base = np.ma.getdata(m)
+            while isinstance(getattr(base, "base", None), np.ndarray):
+                base = base.base
+            try:
+                refs.append(weakref.ref(base))
+            except TypeError:
+                pass
+            del r, m, base
+            stats["pulls"] += 1
             last = t
         for s in slots:
             for _t, d in s.data:
@@ -128,6 +142,11 @@ def _run(case, limit, loc, ctx):
         extra = [f for f in os.listdir(".")]
         if extra:
             stats["stray"] = extra[0]
+    stats["retained"] = sum(len(s.data) for s in slots)
+    stats["alive"] = sum(1 for w in refs if w() is not None)
+    if stats["alive"] > stats["retained"] + 3:
+        gc.collect()  # reference cycles are no leak: count again after a collection
+        stats["alive"] = sum(1 for w in refs if w() is not None)
     link.finalize()
     if loc is not None:
         stats["leftover"] = sorted(os.listdir(loc))
@@ -150,7 +169,7 @@ def check(case, ctx):
         os.chdir(cwd)
         ref, _ = _run(case, None, None, ctx)
         try:
-            got, stats = _run(case, _limit(lim), loc, ctx)
+            got, stats = _run(case, _limit(lim, case.get("n")), loc, ctx)
         except (fm.FinamDataError, fm.FinamTimeError, fm.FinamNoDataError, NotImplementedError, TypeError, ValueError, OSError) as e:
             import pint
 
@@ -171,6 +190,10 @@ def check(case, ctx):
         ctx.event("spilled")
     if stats["spilled"] and stats["ram"]:
         ctx.event("mixed-ram-and-disk")
+    if stats["alive"] > stats["retained"] + 3:
+        ctx.violation(f"delivered-arrays-stay-alive|{'out' if kind == 'out' else 'adapter'}",
+                      f"{kind}/{pk} limit {lim}: {stats['alive']} of {stats['pulls']} arrays handed to the consumer are still referenced "
+                      f"although only {stats['retained']} entries are retained (memory grows with the run length)")
     if stats["stray"]:
         ctx.violation(f"file-outside-location|{kind}", f"file {stats['stray']} created outside the configured location")
     if stats["leftover"]:
@@ -203,6 +226,8 @@ FIXED_HISTORIES = [
     [["push", 0, 5], ["pull", 0, 1], ["push", 120, 1], ["pull", 1, 4], ["pull", 1, 3], ["pull", 1, 2], ["push", 120, 7], ["pull", 1, 1]],
     # long run, lock step
     [["push", 0, 0]] + [x for k in range(1, 9) for x in (["push", 45, k], ["pull", 1, 1])],
+    # longer run with a consumer lagging two publications behind (memory must not grow with the run length)
+    [["push", 0, 0], ["push", 30, 1], ["push", 30, 2], ["pull", 0, 1]] + [x for k in range(3, 27) for x in (["push", 30, k], ["pull", 1, 3])],
 ]
 
 
@@ -212,6 +237,18 @@ def enum_cases(tier):
             for lim in LIMITS:
                 for h in FIXED_HISTORIES:
                     yield {"kind": kind, "payload": pk, "limit": lim, "ops": h}
+
+
+BIG = 700_000  # 5.6 MB per publication: code paths that depend on the payload size
+
+
+def enum_large(tier):
+    h = [["push", 0, 1], ["pull", 0, 1], ["push", 60, 2], ["push", 60, 3], ["pull", 1, 2], ["pull", 1, 1]]
+    kinds = ["out", "lin", "avg"] if tier == "quick" else ["out", "lin", "avg", "sum", "prev", "step"]
+    for kind in kinds:
+        for pk in ("plain", "fixedmask", "flexmask0"):
+            for lim in ("0", "b"):
+                yield {"kind": kind, "payload": pk, "limit": lim, "ops": h, "n": BIG}
 
 
 @st.composite
@@ -443,6 +480,7 @@ def parts():
     return [
         Part("product_enum", check, enumerate=enum_cases, exhaustive=True),
         Part("histories", check, strategy=case_st(), budget={"quick": 600, "thorough": 24000}),
+        Part("large_payload_enum", check, enumerate=enum_large, exhaustive=True),
         Part("composition_enum", check_comp, enumerate=enum_comp, exhaustive=True),
         Part("composition_gen", check_comp, strategy=comp_st, budget={"quick": 150, "thorough": 6000}),
     ]
